@@ -627,11 +627,12 @@ func AppendBinaryValue(data []byte, fieldType uint8, value interface{}) ([]byte,
 		}
 		data = append(data, t[:8]...)
 		return data, nil
-	case TypeNewDecimal, TypeJSON, TypeString, TypeVarString, TypeVarchar, TypeBit, TypeTinyBlob, TypeMediumBlob, TypeLongBlob, TypeBlob:
+	case TypeNewDecimal, TypeJSON, TypeString, TypeVarString, TypeVarchar, TypeBit, TypeTinyBlob, TypeMediumBlob, TypeLongBlob, TypeBlob,
+		TypeEnum, TypeSet:
 		tmp := make([]byte, 0, len(t)+9)
 		data = append(data, AppendLenEncStringBytes(tmp, t)...)
 		return data, nil
-	case TypeEnum, TypeSet, TypeDate, TypeDatetime, TypeDuration, TypeTimestamp, TypeNewDate:
+	case TypeDate, TypeDatetime, TypeDuration, TypeTimestamp, TypeNewDate:
 		data = append(data, t...)
 		return data, nil
 	default:
